@@ -263,7 +263,7 @@ impl Check for C19 {
     }
 
     fn timeout_s(&self) -> f64 {
-        40.0
+        15.0
     }
 
     fn prepare(&mut self, _oracle: Option<&Value>) {
